@@ -9,9 +9,10 @@ open CssVerif.Proto (Cps)
 def GenericTy (ty : Cps) : Bool :=
   ty != t_COMMENT && ty != t_S && ty != t_STRING && ty != t_URI && ty != t_HASH && ty != t_FUNCTION && ty != t_styletext
 
-/-- a value that takes none of the punctuation branches: a "word" -/
+/-- a value that takes none of the punctuation branches: a "word". It does not end with a space — unless that space
+is backslash-escaped, i.e. part of a name (`b\ `), which since the repair of `Out.append` counts as a word too -/
 def Plain (w : Cps) : Bool :=
-  !w.isEmpty && !isInfix w c_punctPre && !isInfix w c_noSpace && !endsSp w
+  !w.isEmpty && !isInfix w c_punctPre && !isInfix w c_noSpace && (!endsSp w || endsEscSp w)
 
 /-- the gap `Out.append` leaves after a word: the spacer, or one space when the spacer is empty
 (`serialize.py:300-307`, the special case) -/
@@ -84,7 +85,9 @@ theorem ne_single_of_not_infix {w : Cps} (h : isInfix w c_punctPre = false) (c :
 theorem append_word (p : Prefs) (il : Nat) (o : O) (w ty : Cps) (hw : Plain w = true) (ht : GenericTy ty = true) :
     append p il o (.str w) ty {} = gapPieces p ++ w :: o := by
   simp only [Plain, Bool.and_eq_true, Bool.not_eq_true'] at hw
-  obtain ⟨⟨⟨h1, h2⟩, h3⟩, h4⟩ := hw
+  obtain ⟨⟨⟨h1, h2⟩, h3⟩, h4'⟩ := hw
+  have h4 : (endsSp w && !endsEscSp w) = false := by
+    cases h5 : endsSp w <;> cases h6 : endsEscSp w <;> simp [h5, h6] at h4' ⊢
   simp only [GenericTy, Bool.and_eq_true, bne_iff_ne, ne_eq] at ht
   obtain ⟨⟨⟨⟨⟨⟨t1, t2⟩, t3⟩, t4⟩, t5⟩, t6⟩, t7⟩ := ht
   have b1 : (ty == t_COMMENT) = false := by simpa using t1
